@@ -155,10 +155,14 @@ def check_finish_window(ctx, cfg, rule="C04.F"):
     for b in db.bodies:
         if b["kind"] not in ("Fn", "AssocFn"):
             continue
-        if not any(t["term"]["k"] == "call" and t["term"]["f"].get("k") == "fn" and t["term"]["f"]["def"].endswith("::finish") for t in b["mir"]["blocks"]):
-            continue
-        a = ctx.analysis(cfg, b["key"])
+        if ctx.is_helper(cfg, b):
+            continue  # judged inlined in its callers, where the storage is handed on
+        # path-exact after the last loop (tree-shaped suffix): a finish() on one branch is followed by that branch's own hand-over
+        a = ctx.analysis_inl(cfg, b["key"], split=True)
         fins = [c for c in a.calls if c.key == "IntrusiveArrayBuilder<$0,$1>::finish"]
+        if not fins:
+            continue
+        verdicts = {}
         for i, f in enumerate(fins):
             closers = [c for c in a.calls if (c.key in ("IntrusiveArrayBuilder<$0,$1>::array_assume_init", "GenericArray<$0,$1>::assume_init") or c.fn.endswith("::from_raw")) and a.dominates(f.bb, c.bb) and c.bb != f.bb]
             bad = []
@@ -172,9 +176,14 @@ def check_finish_window(ctx, cfg, rule="C04.F"):
                     # into_raw / cast plumbing is pure; anything foreign in the window is a leak window
                     bad.append(c.fn)
             # early returns inside the window: a `return` reachable from finish without passing a closer
-            ctx.ob(rule, "%s#finish#%d" % (b["key"], i), bool(closers) and not bad,
-                   ("storage handed on by %s right after finish(); no foreign call in between" % closers[0].fn.split("::")[-1]) if closers and not bad else
-                   ("calls that can unwind or return early while the finished storage has no owner: %s (the elements would be leaked)" % sorted(set(bad)) if bad else "finish() is not followed by array_assume_init / from_raw"), at=f.at, cfg=cfg)
+            ok = bool(closers) and not bad
+            det = (("storage handed on by %s right after finish(); no foreign call in between" % closers[0].fn.split("::")[-1]) if ok else
+                   ("calls that can unwind or return early while the finished storage has no owner: %s (the elements would be leaked)" % sorted(set(bad)) if bad else "finish() is not followed by array_assume_init / from_raw"))
+            site = a.blocks[f.bb].get("split_of", f.bb)
+            prev = verdicts.get((f.at, site))
+            verdicts[(f.at, site)] = (ok and (prev is None or prev[0]), det if (prev is None or prev[0]) else prev[1], f.at)
+        for i, (k_, (ok, det, at_)) in enumerate(sorted(verdicts.items(), key=lambda kv: repr(kv[0]))):
+            ctx.ob(rule, "%s#finish#%d" % (b["key"], i), ok, det, at=at_, cfg=cfg)
             n += 1
     return n
 
